@@ -83,7 +83,8 @@ theorem sepCfg_of (c : Cfg) (o : POpts) (hrel : Rel c) (hfmt : c.feats.format = 
     (hexpc : matchByte o.exp (c.caseSensitiveExponent && c.feats.format) (some c.digitSeparator) = false)
     (hsuf : matchByte c.baseSuffix c.caseSensitiveBaseSuffix (some c.digitSeparator) = false)
     (hpre : matchByte c.basePrefix c.caseSensitiveBasePrefix (some c.digitSeparator) = false)
-    (hdpd : charToDigit o.dp c.mantissaRadix = none) : SepCfg c o where
+    (hdpd : charToDigit o.dp c.mantissaRadix = none)
+    (hprr : prefixRepair = true → c.basePrefix = 0) : SepCfg c o where
   rel := hrel
   fmt := hfmt
   bytes := by simp [Cfg.bytesContiguous, hsep]
@@ -100,6 +101,7 @@ theorem sepCfg_of (c : Cfg) (o : POpts) (hrel : Rel c) (hfmt : c.feats.format = 
   sufSep := fun x hx => by rw [isSep_eq c x hx]; exact hsuf
   preSep := fun x hx => by rw [isSep_eq c x hx]; exact hpre
   dpDig := hdpd
+  preRep := hprr
 
 /-! ## from the validation of `api.rs` -/
 
@@ -178,7 +180,8 @@ theorem sepCfg_of_valid (feats : Features) (fmt : Format) (o : POpts)
     (hsuf : matchByte (⟨feats, fmt, false⟩ : Cfg).baseSuffix (⟨feats, fmt, false⟩ : Cfg).caseSensitiveBaseSuffix
       (some fmt.digitSeparator) = false)
     (hpre : matchByte (⟨feats, fmt, false⟩ : Cfg).basePrefix (⟨feats, fmt, false⟩ : Cfg).caseSensitiveBasePrefix
-      (some fmt.digitSeparator) = false) : SepCfg ⟨feats, fmt, false⟩ o := by
+      (some fmt.digitSeparator) = false)
+    (hprr : prefixRepair = true → fmt.basePrefix = 0) : SepCfg ⟨feats, fmt, false⟩ o := by
   obtain ⟨hvr, hvs⟩ := formatError_sepByte feats fmt hf h2
   obtain ⟨hr1, hrad⟩ := validRadix_facts feats _ hfeat hvr
   have hrel : Rel ⟨feats, fmt, false⟩ := PNTotal.rel_of_valid _ rfl (by simp [h2])
@@ -224,5 +227,6 @@ theorem sepCfg_of_valid (feats : Features) (fmt : Format) (o : POpts)
           (by simpa [Cfg.digitSeparator, Cfg.exponentRadix, hf] using hse) (by simpa [Cfg.digitSeparator, hf] using hdpne)
           (by simpa [Cfg.digitSeparator, hf] using hexpc) (by simpa [Cfg.digitSeparator, hf] using hsuf)
           (by simpa [Cfg.digitSeparator, hf] using hpre) hdpd
+          (by intro h; simp [Cfg.basePrefix, hf, hprr h])
 
 end LexVerif.Proof.C11
